@@ -22,6 +22,7 @@ struct vt_event {
     int rc;              /* code returned to the caller */
     long long val;       /* first reduced value handed back (Allreduce) / bytes (I/O with predefined type) */
     long long own;       /* Allreduce: this rank's first contribution */
+    long long vals[4];   /* Allreduce: first four reduced values */
 };
 extern struct vt_event vt_ev[VT_MAX];
 extern int vt_n;                 /* number of recorded events */
